@@ -9,7 +9,7 @@ COMMON_E1 = [
 CLAIMED = {
     "C02": dict(engines=["E1"], scope="kernel level only: numeric key-domain predicate, bignum tag predicate, literal→CBOR value conversion, and the scalar layer of the decoder (encoding independence of integer/float heads); whole-validator verdicts are outside the claim",
                 assumptions=COMMON_E1),
-    "C03": dict(engines=["E2"], scope="acceptance half: cddl.pest (as optimised by pest_meta) accepts exactly the strings derivable from the RFC 8610/9682 ABNF, for every string up to the length bound and every template hole; AST shape is outside the claim",
+    "C03": dict(engines=["E2", "E1"], scope="acceptance half: cddl.pest (as optimised by pest_meta) accepts exactly the strings derivable from the RFC 8610/9682 ABNF, for every string up to the length bound and every template hole; AST shape is outside the claim; plus (E1) the control-name table agrees with the operator printer",
                 assumptions=[]),
     "C05": dict(engines=["E1"], scope="panic/overflow/out-of-bounds freedom of the byte-level kernels for all in-bound inputs, allocation from wire lengths, error-position arithmetic; validator-level panics, stack depth and time bounds are outside the claim",
                 assumptions=COMMON_E1),
